@@ -376,7 +376,65 @@ def check_f_setter(ctx, ck, rule='R-FRESH.setter', with_resets=True):
                           'compute entry point: after a frequency change the value of the old frequency is used' % (
                               t_.attr, dep, g_.qual))
     ck.info('frequency_derived_stores', n_fs)
+    check_frequency_cached(ctx, ck, frule, st, fkeys)
 
+
+
+def frequency_keys(ctx):
+    """(setter, {'self.f', 'self._f', 'self.<attribute the setter derives from the frequency>', ...})"""
+    m = ctx.model
+    st = m.func('mininec.Mininec.f@setter')
+    keys = {'self.f', 'self._f'}
+    for n in ast.walk(st.node):
+        if isinstance(n, ast.Attribute) and isinstance(n.ctx, ast.Store) and isinstance(n.value, ast.Name) and n.value.id == 'self':
+            p_ = parent(n)
+            if isinstance(p_, (ast.Assign, ast.AugAssign)) and not (isinstance(getattr(p_, 'value', None), ast.Constant)
+                                                                    and p_.value.value is None):
+                keys.add('self.' + n.attr)
+    return st, keys
+
+
+def check_frequency_cached(ctx, ck, rule, st=None, fkeys=None):
+    """a value of the model that is computed from the frequency (or from a constant the setter derives from it) and
+    kept by functools.cached_property is computed once per object: after a frequency change it is the value of the
+    first frequency - unless the setter drops it from the instance dictionary"""
+    m = ctx.model
+    if st is None:
+        st, fkeys = frequency_keys(ctx)
+    cls = m.classes['Mininec']
+    dropped = set()
+    for n in ast.walk(st.node):
+        if isinstance(n, ast.Call) and isinstance(n.func, ast.Attribute) and n.func.attr == 'pop' and \
+           norm(n.func.value) == 'self.__dict__' and n.args and isinstance(n.args[0], ast.Constant):
+            dropped.add(n.args[0].value)
+        if isinstance(n, ast.Delete):
+            for t_ in n.targets:
+                if isinstance(t_, ast.Subscript) and norm(t_.value) == 'self.__dict__' and isinstance(t_.slice, ast.Constant):
+                    dropped.add(t_.slice.value)
+                elif isinstance(t_, ast.Attribute) and isinstance(t_.value, ast.Name) and t_.value.id == 'self':
+                    dropped.add(t_.attr)
+        if isinstance(n, ast.Call) and isinstance(n.func, ast.Name) and n.func.id == 'delattr' and len(n.args) == 2 and \
+           isinstance(n.args[1], ast.Constant):
+            dropped.add(n.args[1].value)
+    n_c = 0
+    for g_ in sorted(cls.methods.values(), key=lambda x: x.qual):
+        if g_.kind != 'cached_property':
+            continue
+        gfl_ = ctx.flow(g_)
+        dep = set()
+        for r_ in walk_no_nested(g_.node):
+            if isinstance(r_, ast.Return) and r_.value is not None:
+                dep |= {x_[1] for x_ in gfl_.roots(r_.value, gfl_.node_id_of(r_)) if x_[0] == 'attr' and x_[1] in fkeys}
+        if not dep:
+            continue
+        n_c += 1
+        ok = g_.name in dropped
+        ck.ob(rule, '%s|cached' % g_.qual, ok, g_.loc(),
+              'the cached self.%s (from %s) is dropped by the frequency setter' % (g_.name, sorted(dep)) if ok else
+              'self.%s is a cached_property computed from %s: it keeps the value of the first frequency for the life of '
+              'the object (the setter does not drop it)' % (g_.name, sorted(dep)))
+    ck.info('frequency_dependent_cached_properties', n_c)
+    return n_c
 
 
 def check_solve_order(ctx, ck, rule='R-FRESH.solve-order'):
